@@ -340,7 +340,6 @@ impl Cyc {
 fn cyclic(s: &Value) -> Vec<Value> {
     let id = s["id"].as_str().unwrap_or("?").to_string();
     let mut r = rng_for(&id, 22);
-    let start = s["start"].as_u64().unwrap_or(0);
     let t0 = std::time::Instant::now();
     let base_common = common_data_for_recursion();
     let x = match guarded(|| cyclic_circuit(1, &base_common)) {
@@ -356,13 +355,16 @@ fn cyclic(s: &Value) -> Vec<Value> {
         "same_common": x.data.common == y.data.common, "different_vd": x.data.verifier_only.circuit_digest != y.data.verifier_only.circuit_digest,
         "build_ms": t0.elapsed().as_millis() as u64}})];
     // chain proofs of the foreign circuit, by length
-    let mut foreign: Vec<PW> = vec![];
+    let mut foreign_by_start: StdMap<u64, Vec<PW>> = StdMap::new();
     let mut cache: StdMap<String, St> = StdMap::new();
     let mut proved = 0usize;
     for (hi, hist) in s["histories"].as_array().cloned().unwrap_or_default().iter().enumerate() {
         let mut st = St { latest: None, n: 0 };
-        let mut key = String::new();
-        for (si, step) in hist.as_array().cloned().unwrap_or_default().iter().enumerate() {
+        // base-case variant: the start value travels in the base proof's public inputs (0 = the all-zero map)
+        let start = hist["start"].as_u64().unwrap_or(0);
+        let mut key = format!("{start}:");
+        let foreign = foreign_by_start.entry(start).or_default();
+        for (si, step) in hist["steps"].as_array().cloned().unwrap_or_default().iter().enumerate() {
             let act = step["act"].as_str().unwrap_or("");
             key.push_str(act);
             key.push('/');
@@ -425,7 +427,7 @@ fn cyclic(s: &Value) -> Vec<Value> {
             };
             // a foreign proof is a proper chain proof of ITS circuit
             let foreign_ok = if act == "Foreign" { st.latest.as_ref().map(|p| y.observe(p)) } else { None };
-            out.push(json!({"id": id, "history": hi, "step": si, "act": act, "expect": step["expect"], "step_outcome": step_outcome,
+            out.push(json!({"id": id, "history": hi, "start": start, "step": si, "act": act, "expect": step["expect"], "step_outcome": step_outcome,
                 "obs": obs, "stage": stage, "inc": x.inc, "model_n": st.n, "foreign_under_its_circuit": foreign_ok}));
         }
     }
